@@ -14,6 +14,7 @@ extern crate rustc_middle;
 extern crate rustc_session;
 extern crate rustc_span;
 
+use rustc_middle::ty::TypeVisitableExt;
 use rustc_driver::{Callbacks, Compilation};
 use rustc_hir::def::DefKind;
 use rustc_hir::def_id::{DefId, LOCAL_CRATE};
@@ -334,6 +335,15 @@ impl<'tcx> Cx<'tcx> {
                 kv.push(("ikind", jstr(ik)));
                 if is_item && !rd.is_local() && tcx.is_mir_available(rd) {
                     kv.push(("ext_key", jstr(&format!("{:?}", inst))));
+                    self.ext.push((inst, env));
+                }
+                // an in-crate function with const generic parameters called with concrete arguments (`take::<2>()`): its generic
+                // MIR does not know the array lengths, so the instance is dumped monomorphised as well
+                if is_item && rd.is_local() && tcx.is_mir_available(rd)
+                    && inst.args.iter().any(|a| a.as_const().is_some())
+                    && !inst.args.iter().any(|a| a.has_param())
+                {
+                    kv.push(("mono_key", jstr(&format!("{:?}", inst))));
                     self.ext.push((inst, env));
                 }
             }
@@ -888,11 +898,11 @@ fn dump<'tcx>(tcx: TyCtxt<'tcx>, out_path: &str) {
             bodies.push(cx.body(did, pb, Some(pi.as_u32())));
         }
     }
-    // external callee instances, monomorphised, transitively (bounded: 5 rounds, 500 bodies, 80 blocks each)
+    // external callee instances, monomorphised, transitively (bounded: 8 rounds, 800 bodies, 80 blocks each)
     let mut seen = std::collections::BTreeSet::new();
     let mut ext_bodies = vec![];
     let mut rounds = 0;
-    while !cx.ext.is_empty() && rounds < 5 && ext_bodies.len() < 500 {
+    while !cx.ext.is_empty() && rounds < 8 && ext_bodies.len() < 800 {
         rounds += 1;
         let work: Vec<_> = std::mem::take(&mut cx.ext);
         for (inst, env) in work {
